@@ -127,6 +127,40 @@ def main(argv):
                                         "fresh": lines[0], "rebuilt": ag[0] if ag else "(nothing)"}], "output": lines})
     chk.obligation("oracle: after the final root disposal the same tree built again in the re-used root (before the executor drops the cancelled tasks) shows what a fresh tree shows (%d scenarios)" % len(cases),
                    not afail, str(afail[:1]))
+    # a Resource that outlives the boundary under which it was read: the boundary (a page) is disposed at every position of a history
+    # of dependency writes and completions; neither the disposal nor any later refetch / completion may panic, and the resource
+    # goes on as C15 says (real sycamore-web Resource, ssr-driver `susout` mode)
+    import c15
+    okr, outr, binr = vlib.cargo_build("ssr-driver")
+    chk.obligation("cargo build ssr-driver against /repo", okr, outr)
+    ufail = []
+    if okr:
+        hist = [h for h in c15.gen(a.tier, rng) if 1 <= len(h) <= 6][: 160 if a.tier == "quick" else 1200]
+        ucases = [h[:pos] + [("unmount", 0)] + h[pos:] for h in hist for pos in range(len(h) + 1)]
+        text = "\n".join("(resource (%s) susout)" % " ".join("(unmount)" if st[0] == "unmount" else "(%s %d)" % st for st in c) for c in ucases) + "\n"
+        rc, so, se = vlib.run_driver(binr, text, timeout=3000)
+        blocks = so.rstrip("\n").split("\n==\n")
+        if rc != 0 or len(blocks) != len(ucases):
+            ufail.append({"program": "resource-outlives-boundary", "schedule": "", "failures": [{"what": "driver run", "stderr": se[-600:]}]})
+        else:
+            for c, b in zip(ucases, blocks):
+                ls = b.split("\n")
+                sched = "(resource (%s) susout)" % " ".join("(unmount)" if st[0] == "unmount" else "(%s %d)" % st for st in c)
+                if ls[0] == "PANIC" or ls[-1] != "end panics=0":
+                    ufail.append({"program": "resource-outlives-boundary", "schedule": sched,
+                                  "failures": [{"what": "panic at or after the disposal of a boundary under which a resource had been read", "line": ls[-1]}]})
+                    continue
+                body = ls[:-1]
+                u = [j for j, st in enumerate(c) if st[0] == "unmount"][0]
+                plain = [l.rsplit(" sus=", 1)[0] for l in body]
+                bad = []
+                if plain[u + 1] != plain[u]:
+                    bad.append({"what": "disposing the boundary changed the resource", "before": plain[u], "after": plain[u + 1]})
+                bad += c15.oracle([st for st in c if st[0] != "unmount"], plain[:u + 1] + plain[u + 2:])
+                if bad:
+                    ufail.append({"program": "resource-outlives-boundary", "schedule": sched, "failures": bad[:3], "output": body})
+        chk.obligation("oracle: a boundary under which a Resource was read is disposed at every position of %d histories: no panic then or at any later refetch / completion, the "
+                       "resource goes on unchanged" % (len(ucases)), not ufail, str(ufail[:1]))
     model = None
     vlib.coq_make(["theories/Async/Suspense.vo"])
     try:
@@ -134,7 +168,7 @@ def main(argv):
     except RuntimeError as e:
         broken.append("model evaluation: " + str(e)[-500:])
         chk.obligation("model evaluation", False, str(e))
-    mism, orfail = [], list(afail)
+    mism, orfail = [], list(afail) + list(ufail)
     for i, ((prog, steps), lines) in enumerate(zip(cases, impl)):
         key = asyncgen.sx_nodes(prog) + asyncgen.sx_steps(steps)
         fails = oracle(prog, steps, lines)
